@@ -300,6 +300,14 @@ func c05Unit(j *Job, u *JobUnit) error {
 			}
 			cellBase := fmt.Sprintf("%s,rpc=%s.%s", u.Cell, s.Name, m.Name)
 			hdr := http.Header{"Content-Type": {"application/json"}}
+			// content types under which the server answers JSON: the default plus spellings it does not single out;
+			// for those the answer is judged only when it is a JSON answer (the mapping is what is being checked, not the negotiation)
+			type ctAlt struct {
+				key string
+				hdr http.Header
+			}
+			alts := []ctAlt{{"", hdr}, {"json_charset", http.Header{"Content-Type": {"application/json; charset=utf-8"}}}, {"absent", http.Header{}},
+				{"text_plain", http.Header{"Content-Type": {"text/plain"}}}, {"json_upper", http.Header{"Content-Type": {"Application/JSON"}}}, {"vnd_json", http.Header{"Content-Type": {"application/vnd.api+json"}}}}
 			// response direction: every value of the output type
 			outProbe, err := NewMessage(m.Out)
 			if err != nil {
@@ -314,38 +322,51 @@ func c05Unit(j *Job, u *JobUnit) error {
 			dims := Dims(outProbe.ProtoReflect().Descriptor(), ValueOpts{Thorough: j.Thorough})
 			maxDev := maxDevFor(j, dims)
 			err = Enumerate(m.Out, dims, maxDev, func(p Point) bool {
-				cell := cellBase + ",dir=response#" + devClass(p)
 				want, err := model.Encode(p.Msg.ProtoReflect(), model.EncOpts{})
 				if err != nil {
 					return true
 				}
-				f.reset()
-				f.handler = func(context.Context, string, proto.Message) (proto.Message, error) { return p.Msg, nil }
-				ex, err := f.wire.Do(m.Verb, m.Path, hdr, defaultBody)
-				if err != nil {
-					t.viol(cell, "no_response", err.Error(), p.Labels)
-					return true
-				}
-				switch {
-				case ex.Panic != "":
-					t.viol(cell, "panic", clipS(ex.Panic), p.Labels)
-					t.hit(cellBase, "panic", true)
-				case len(f.calls) != 1:
-					t.viol(cell, "default_request_not_dispatched", fmt.Sprintf("status=%d body=%s (request body %s)", ex.Status, clip(ex.RespBody), defaultBody), p.Labels)
-					t.hit(cellBase, "not_dispatched", true)
-				case ex.Status != 200:
-					t.viol(cell, "response_not_200", fmt.Sprintf("status=%d body=%s value=%s", ex.Status, clip(ex.RespBody), protoText(p.Msg)), p.Labels)
-					t.hit(cellBase, "response_not_200", true)
-				default:
-					got, perr := model.Parse(ex.RespBody)
-					if perr != nil {
-						t.viol(cell, "response_not_json", perr.Error()+" | "+clip(ex.RespBody), p.Labels)
-						t.hit(cellBase, "response_not_json", true)
-					} else if d := model.Diff(want, got); d != "" {
-						t.viol(cell, "response_json_differs", fmt.Sprintf("%s | want=%s | got=%s", d, clip(model.Marshal(want)), clip(ex.RespBody)), p.Labels)
-						t.hit(cellBase, "response_json_differs", true)
-					} else {
-						t.hit(cellBase, "response_matches_model", p.Deviate > 0)
+				for _, alt := range alts {
+					cell := cellBase + ",dir=response#" + devClass(p)
+					if alt.key != "" {
+						cell = cellBase + ",dir=response,ct=" + alt.key + "#" + devClass(p)
+					}
+					f.reset()
+					f.handler = func(context.Context, string, proto.Message) (proto.Message, error) { return p.Msg, nil }
+					ex, err := f.wire.Do(m.Verb, m.Path, alt.hdr, defaultBody)
+					if err != nil {
+						t.viol(cell, "no_response", err.Error(), p.Labels)
+						continue
+					}
+					if alt.key != "" && (len(f.calls) != 1 || ex.Status != 200 || !strings.HasPrefix(ex.RespHeader.Get("Content-Type"), "application/json")) {
+						if ex.Panic != "" {
+							t.viol(cell, "panic", clipS(ex.Panic), p.Labels)
+						} else {
+							t.hit(cellBase+",ct="+alt.key, "not_a_json_answer_unjudged", false)
+						}
+						continue
+					}
+					switch {
+					case ex.Panic != "":
+						t.viol(cell, "panic", clipS(ex.Panic), p.Labels)
+						t.hit(cellBase, "panic", true)
+					case len(f.calls) != 1:
+						t.viol(cell, "default_request_not_dispatched", fmt.Sprintf("status=%d body=%s (request body %s)", ex.Status, clip(ex.RespBody), defaultBody), p.Labels)
+						t.hit(cellBase, "not_dispatched", true)
+					case ex.Status != 200:
+						t.viol(cell, "response_not_200", fmt.Sprintf("status=%d body=%s value=%s", ex.Status, clip(ex.RespBody), protoText(p.Msg)), p.Labels)
+						t.hit(cellBase, "response_not_200", true)
+					default:
+						got, perr := model.Parse(ex.RespBody)
+						if perr != nil {
+							t.viol(cell, "response_not_json", perr.Error()+" | "+clip(ex.RespBody), p.Labels)
+							t.hit(cellBase, "response_not_json", true)
+						} else if d := model.Diff(want, got); d != "" {
+							t.viol(cell, "response_json_differs", fmt.Sprintf("%s | want=%s | got=%s", d, clip(model.Marshal(want)), clip(ex.RespBody)), p.Labels)
+							t.hit(cellBase, "response_json_differs", true)
+						} else {
+							t.hit(cellBase, "response_matches_model", p.Deviate > 0)
+						}
 					}
 				}
 				return true
@@ -359,7 +380,6 @@ func c05Unit(j *Job, u *JobUnit) error {
 			maxDev = maxDevFor(j, dims)
 			outDefault, _ := NewMessage(m.Out)
 			err = Enumerate(m.In, dims, maxDev, func(p Point) bool {
-				cell := cellBase + ",dir=request#" + devClass(p)
 				v, err := model.Encode(p.Msg.ProtoReflect(), model.EncOpts{})
 				if err != nil {
 					return true
@@ -368,25 +388,35 @@ func c05Unit(j *Job, u *JobUnit) error {
 					return true
 				}
 				body := model.Marshal(v)
-				f.reset()
-				f.handler = func(context.Context, string, proto.Message) (proto.Message, error) { return outDefault, nil }
-				ex, err := f.wire.Do(m.Verb, m.Path, hdr, body)
-				if err != nil {
-					t.viol(cell, "no_response", err.Error(), p.Labels)
-					return true
-				}
-				switch {
-				case ex.Panic != "":
-					t.viol(cell, "panic", clipS(ex.Panic), p.Labels)
-					t.hit(cellBase, "panic", true)
-				case len(f.calls) == 0:
-					t.viol(cell, "documented_form_rejected", fmt.Sprintf("status=%d resp=%s | body=%s", ex.Status, clip(ex.RespBody), clip(body)), p.Labels)
-					t.hit(cellBase, "documented_form_rejected", true)
-				case !equalNorm(p.Msg, f.seen[0]):
-					t.viol(cell, "request_decoded_differs", fmt.Sprintf("body=%s | handler saw=%s | want=%s", clip(body), protoText(f.seen[0]), protoText(p.Msg)), p.Labels)
-					t.hit(cellBase, "request_decoded_differs", true)
-				default:
-					t.hit(cellBase, "request_matches_model", p.Deviate > 0)
+				for _, alt := range alts {
+					cell := cellBase + ",dir=request#" + devClass(p)
+					if alt.key != "" {
+						cell = cellBase + ",dir=request,ct=" + alt.key + "#" + devClass(p)
+					}
+					f.reset()
+					f.handler = func(context.Context, string, proto.Message) (proto.Message, error) { return outDefault, nil }
+					ex, err := f.wire.Do(m.Verb, m.Path, alt.hdr, body)
+					if err != nil {
+						t.viol(cell, "no_response", err.Error(), p.Labels)
+						continue
+					}
+					if alt.key != "" && len(f.calls) == 0 && ex.Panic == "" {
+						t.hit(cellBase+",ct="+alt.key, "not_dispatched_unjudged", false)
+						continue
+					}
+					switch {
+					case ex.Panic != "":
+						t.viol(cell, "panic", clipS(ex.Panic), p.Labels)
+						t.hit(cellBase, "panic", true)
+					case len(f.calls) == 0:
+						t.viol(cell, "documented_form_rejected", fmt.Sprintf("status=%d resp=%s | body=%s", ex.Status, clip(ex.RespBody), clip(body)), p.Labels)
+						t.hit(cellBase, "documented_form_rejected", true)
+					case !equalNorm(p.Msg, f.seen[0]):
+						t.viol(cell, "request_decoded_differs", fmt.Sprintf("body=%s | handler saw=%s | want=%s", clip(body), protoText(f.seen[0]), protoText(p.Msg)), p.Labels)
+						t.hit(cellBase, "request_decoded_differs", true)
+					default:
+						t.hit(cellBase, "request_matches_model", p.Deviate > 0)
+					}
 				}
 				return true
 			})
